@@ -74,17 +74,21 @@ def cart1Row (N : Nat) (dx : K) (lo hi : BCData K) (i : Nat) : K × List (Op K) 
   let (c, ops) := axisOps N i s s lo hi id
   (c, Op.add i (-(((2:Nat):K)) * s) :: ops)
 
-/-- polar `_get_laplace_matrix`; `rmin0` is the branch `r_min == 0` -/
+/-- an empty virtual point (used where the source skips the inner boundary for `r_min == 0`:
+`pass` - nothing is added for the lower neighbour) -/
+def noBC : BCData K := ⟨((0:Nat):K), []⟩
+
+/-- polar `_get_laplace_matrix`; `rmin0` is the branch `r_min == 0`, in which the first row gets no
+contribution from the inner virtual point (its coefficient `scale - scale_i` vanishes) -/
 def polarRow (N : Nat) (r : Int → K) (dr : K) (rmin0 : Bool) (lo hi : BCData K) (i : Nat) : K × List (Op K) :=
   let s : K := ((1:Nat):K) / (dr * dr)
   let si : K := ((1:Nat):K) / (((2:Nat):K) * r ((i:Int) + 1) * dr)
-  if i = 0 ∧ rmin0 then
-    (((0:Nat):K), [Op.add i (-(((2:Nat):K)) * s), Op.set (i + 1) (((2:Nat):K) * s)])   -- then `continue`
-  else
-    let (c, ops) := axisOps N i (s - si) (s + si) lo hi id
-    (c, Op.add i (-(((2:Nat):K)) * s) :: ops)
+  let lo' := if i = 0 ∧ rmin0 then noBC else lo
+  let (c, ops) := axisOps N i (s - si) (s + si) lo' hi id
+  (c, Op.add i (-(((2:Nat):K)) * s) :: ops)
 
-/-- spherical `_get_laplace_matrix` (always the conservative stencil) -/
+/-- spherical `_get_laplace_matrix` (always the conservative stencil); for `r_min == 0` the inner
+virtual point of the first row is skipped (`factor_l[0] = 0`) -/
 def sphRow (N : Nat) (r : Int → K) (dr : K) (rmin0 : Bool) (lo hi : BCData K) (i : Nat) : K × List (Op K) :=
   let ρ := r ((i:Int) + 1)
   let rl := ρ - dr / ((2:Nat):K)
@@ -92,15 +96,9 @@ def sphRow (N : Nat) (r : Int → K) (dr : K) (rmin0 : Bool) (lo hi : BCData K) 
   let vol := shellThird rl rh
   let fl := rl * rl / (dr * vol)
   let fh := rh * rh / (dr * vol)
-  let diag := Op.add i (-fl - fh)
-  if i = 0 ∧ rmin0 then
-    -- `matrix[i, i + 1] = factor_l[i]`, afterwards the regular upper part
-    let (ch, oh) := if i = N - 1 then (hi.const * fh, hi.entries.map (fun e => Op.add e.1 (e.2 * fh)))
-                    else (((0:Nat):K), [Op.add (i + 1) fh])
-    (ch, diag :: Op.set (i + 1) fl :: oh)
-  else
-    let (c, ops) := axisOps N i fl fh lo hi id
-    (c, diag :: ops)
+  let lo' := if i = 0 ∧ rmin0 then noBC else lo
+  let (c, ops) := axisOps N i fl fh lo' hi id
+  (c, Op.add i (-fl - fh) :: ops)
 
 /-- `_get_laplace_matrix_2d`: row of cell `(x, y)`, flat index `x * dimY + y`; conditions may
 depend on the position along the face -/
